@@ -76,7 +76,7 @@ Build(prog, nodes) == IF prog = <<>> THEN [ok |-> TRUE, nodes |-> nodes]
 (* resolve_link: follow link -> link -> ... ; returns <<"ok", path>> | <<"err">> | <<"hang">> *)
 RECURSIVE Resolve(_, _, _, _)
 Resolve(nodes, start, cur, steps) ==
-  IF steps > 8 THEN <<"hang">>
+  IF steps > 40 THEN <<"hang">>                                                       \* far beyond the number of nodes any program here creates
   ELSE IF ~Has(nodes, cur) THEN <<"err">>                                                   \* ENOENT
   ELSE IF nodes[cur].kind # "link" THEN (IF nodes[cur].kind = "dir" THEN <<"err">> ELSE <<"ok", cur>>)
   ELSE LET nxt == nodes[cur].tgt IN
